@@ -472,7 +472,7 @@ func init() {
 	}
 }
 
-func bodyUnpersisted(workers int) func(c *drv.Ctx) {
+func bodyUnpersisted(workers int, single bool) func(c *drv.Ctx) {
 	return func(c *drv.Ctx) {
 		src := c.Dir + "/src"
 		g := &idleGateT{parked: make(chan int, 1), release: make(chan int, 1)}
@@ -505,11 +505,13 @@ func bodyUnpersisted(workers int) func(c *drv.Ctx) {
 		do(1)
 		vrt.Recv(g.parked) // batch 1 persisted; the persister is parked at its idle point
 		do(2)
-		do(3)
+		if !single {
+			do(3)
+		}
 		vrt.WaitIdle()
 		if st, err := bx.Scorch(idx).VerifFileState(); err == nil {
 			c.Observe(fmt.Sprintf("root-before-copy:mem=%d,with-deletions=%d", st.MemSegments, st.MemSegmentsWithDeletions))
-			if st.MemSegmentsWithDeletions == 0 {
+			if st.MemSegmentsWithDeletions == 0 && !single {
 				c.Count("scenario_precondition_missed", 1)
 			}
 		}
@@ -517,9 +519,21 @@ func bodyUnpersisted(workers int) func(c *drv.Ctx) {
 		var cerr error
 		var wg vrt.WaitGroup
 		wg.Add(3)
+		if single {
+			// one unpersisted segment: the persister writes it directly under the name the backup
+			// expects; it is released first so that (by default) it writes while the backup waits
+			vrt.Go(func() {
+				defer wg.Done()
+				vrt.Send(g.release, 1)
+			})
+		}
 		vrt.Go(func() {
 			defer wg.Done()
-			do(4)
+			if single {
+				do(3)
+			} else {
+				do(4)
+			}
 		})
 		vrt.Go(func() {
 			defer wg.Done()
@@ -527,12 +541,18 @@ func bodyUnpersisted(workers int) func(c *drv.Ctx) {
 			cerr = idx.(bleve.IndexCopyable).CopyTo(bleve.FileSystemDirectory(c.Dir + "/dst"))
 			hi = submitted
 		})
-		vrt.Go(func() {
-			defer wg.Done()
-			vrt.Send(g.release, 1)
-		})
+		if !single {
+			vrt.Go(func() {
+				defer wg.Done()
+				vrt.Send(g.release, 1)
+			})
+		}
 		wg.Wait()
 		vrt.WaitIdle()
+		last := 4
+		if single {
+			last = 3
+		}
 		vrt.Free(func() {
 			if cerr != nil {
 				c.Fail("copyto-error", "the backup failed: %v", cerr)
@@ -553,7 +573,7 @@ func bodyUnpersisted(workers int) func(c *drv.Ctx) {
 				c.Observe(fmt.Sprintf("copy@%d", q))
 				ci.Close()
 			}
-			if bad := modelOf(partial, 4).Check(idx, ids, keys); len(bad) > 0 {
+			if bad := modelOf(partial, last).Check(idx, ids, keys); len(bad) > 0 {
 				c.Fail("source-affected", "source after the backup: %s", strings.Join(bad, "; "))
 			}
 			if err := idx.Close(); err != nil {
@@ -563,7 +583,7 @@ func bodyUnpersisted(workers int) func(c *drv.Ctx) {
 			if re, err := bleve.Open(src); err != nil {
 				c.Fail("source-does-not-reopen", "source after Close: %v", err)
 			} else {
-				if bad := modelOf(partial, 4).Check(re, ids, keys); len(bad) > 0 {
+				if bad := modelOf(partial, last).Check(re, ids, keys); len(bad) > 0 {
 					c.Fail("source-affected", "source reopened after the backup: %s", strings.Join(bad, "; "))
 				}
 				re.Close()
@@ -590,8 +610,9 @@ func Scenarios() []drv.Scenario {
 		{Name: "slow-backup-of-builder-made-index", Body: bodySlowBuilder(true), Quick: d1r, Thorough: d2, Class: "backup", MaxSteps: 1500000},
 		{Name: "two-overlapping-backups-second-slow-unsafe", Doc: "two backups take their copy reader on the same never-persisted root; the fast one ends; merges, persists and purges; then the slow one copies", Body: bodyTwoOverlapping, Quick: d1r, Thorough: d2, Class: "backup", MaxSteps: 1500000},
 		{Name: "slow-backup-unsafe", Body: bodySlowBuilder(false), Quick: d1r, Thorough: d2, Class: "backup", MaxSteps: 1500000},
-		{Name: "backup-of-unpersisted-segments-with-obsoleted-documents-unsafe", Doc: "persister parked idle after batch 1; batches 2,3 in memory (3 obsoletes documents of 2); then CopyTo ∥ batch 4 ∥ persister resumes", Body: bodyUnpersisted(1), Quick: d1r, Thorough: d2, Class: "backup", MaxSteps: 1500000},
-		{Name: "backup-of-unpersisted-segments-2-persister-workers-unsafe", Doc: "same with two persister workers merging in memory", Body: bodyUnpersisted(2), Quick: nil, Thorough: d1, Class: "backup", MaxSteps: 1500000},
+		{Name: "backup-of-unpersisted-segments-with-obsoleted-documents-unsafe", Doc: "persister parked idle after batch 1; batches 2,3 in memory (3 obsoletes documents of 2); then CopyTo ∥ batch 4 ∥ persister resumes", Body: bodyUnpersisted(1, false), Quick: d1r, Thorough: d2, Class: "backup", MaxSteps: 1500000},
+		{Name: "backup-while-the-persister-writes-the-same-segment-unsafe", Doc: "persister parked idle after batch 1; batch 2 in memory; the persister is released and writes that one segment directly (zapx creates the file and fills it in place: a scheduling point in between) while CopyTo and batch 3 run", Body: bodyUnpersisted(1, true), Quick: d1r, Thorough: d2, Class: "backup", MaxSteps: 1500000},
+		{Name: "backup-of-unpersisted-segments-2-persister-workers-unsafe", Doc: "same with two persister workers merging in memory", Body: bodyUnpersisted(2, false), Quick: nil, Thorough: d1, Class: "backup", MaxSteps: 1500000},
 		mk(cfg{name: "two-copies-after-batch1", copies: 2, startAt: 1, batches: 4, conf: aggressive1}, nil, d1),
 		mk(cfg{name: "copy-after-batch2", copies: 1, startAt: 2, batches: 4, conf: aggressive1}, nil, d1),
 	}
